@@ -618,4 +618,113 @@ theorem centrifugate_structure (T c : Str) (h : centrifugate T = .ok c) :
           · exact (hkept l (by simp [hKe', hl])).1
           · exact (hkept last hll).1
 
+/-! ### The characters of the prepared text -/
+
+theorem mem_normGo (s : Str) : ∀ (st : NState) (pend : Str) (c : Char), c ∈ normGo st pend s →
+    c ∈ pend ∨ c ∈ s ∨ c ∈ m14 := by
+  induction s with
+  | nil => intro st pend c hc; simp only [normGo] at hc; exact Or.inl hc
+  | cons x t ih =>
+    intro st pend c hc
+    simp only [normGo] at hc
+    cases hn : nstep st x <;> simp only [hn] at hc
+    · rcases ih _ _ c hc with h | h | h
+      · rcases List.mem_append.mp h with h | h
+        · exact Or.inl h
+        · simp at h; subst h; exact Or.inr (Or.inl (by simp))
+      · exact Or.inr (Or.inl (List.mem_cons_of_mem _ h))
+      · exact Or.inr (Or.inr h)
+    · rcases List.mem_append.mp hc with h | h
+      · exact Or.inl h
+      · rcases List.mem_cons.mp h with rfl | h
+        · exact Or.inr (Or.inl (by simp))
+        · rcases ih _ _ c h with h | h | h
+          · simp at h
+          · exact Or.inr (Or.inl (List.mem_cons_of_mem _ h))
+          · exact Or.inr (Or.inr h)
+    · rcases List.mem_append.mp hc with h | h
+      · exact Or.inl h
+      · rcases ih _ _ c h with h | h | h
+        · simp at h; subst h
+          have : x = '#' := by
+            unfold nstep at hn
+            split at hn
+            · assumption
+            · cases st <;> simp only at hn <;> (repeat' split at hn) <;> cases hn
+          subst this; exact Or.inr (Or.inl (by simp))
+        · exact Or.inr (Or.inl (List.mem_cons_of_mem _ h))
+        · exact Or.inr (Or.inr h)
+    · rcases List.mem_append.mp hc with h | h
+      · exact Or.inr (Or.inr h)
+      · rcases ih _ _ c h with h | h | h
+        · simp at h
+        · exact Or.inr (Or.inl (List.mem_cons_of_mem _ h))
+        · exact Or.inr (Or.inr h)
+    · rcases ih _ _ c hc with h | h | h
+      · simp at h
+      · exact Or.inr (Or.inl (List.mem_cons_of_mem _ h))
+      · exact Or.inr (Or.inr h)
+
+theorem mem_joinNL (ls : List Str) (c : Char) (h : c ∈ joinNL ls) : c = '\n' ∨ ∃ l ∈ ls, c ∈ l := by
+  induction ls with
+  | nil => simp [joinNL] at h
+  | cons l t ih =>
+    cases t with
+    | nil => exact Or.inr ⟨l, by simp, by simpa [joinNL] using h⟩
+    | cons l2 t2 =>
+      rw [joinNL_cons_cons] at h
+      rcases List.mem_append.mp h with h | h
+      · exact Or.inr ⟨l, by simp, h⟩
+      · rcases List.mem_cons.mp h with rfl | h
+        · exact Or.inl rfl
+        · rcases ih h with h | ⟨x, hx, hc⟩
+          · exact Or.inl h
+          · exact Or.inr ⟨x, List.mem_cons_of_mem _ hx, hc⟩
+
+theorem trimEnds_sublist (s : Str) : ∀ c ∈ trimEnds s, c ∈ s := by
+  intro c hc
+  unfold trimEnds at hc
+  simp only at hc
+  have h1 := (List.dropWhile_sublist isSpaceRe
+    (l := (keepAfterLastNL (s.takeWhile isSpaceRe) ++ s.dropWhile isSpaceRe).reverse)).subset (List.mem_reverse.mp hc)
+  rcases List.mem_append.mp (List.mem_reverse.mp h1) with h | h
+  · have : c ∈ s.takeWhile isSpaceRe := by
+      unfold keepAfterLastNL at h
+      split at h
+      · exact List.mem_reverse.mp ((List.takeWhile_sublist _).subset (List.mem_reverse.mp h))
+      · exact h
+    exact (List.takeWhile_sublist _).subset this
+  · exact (List.dropWhile_sublist _).subset h
+
+/-- No separator 0x1c–0x1f: `str.strip` and the regex `\s` agree on what white space is. -/
+def fsFree (c : Char) : Prop := ¬ (28 ≤ c.toNat ∧ c.toNat ≤ 31)
+
+theorem fsFree_py (c : Char) (h : fsFree c) (hs : isSpaceRe c = false) : isSpacePy c = false := by
+  simp only [isSpacePy, hs, Bool.false_or, Bool.and_eq_false_iff, decide_eq_false_iff_not]
+  simp only [fsFree] at h
+  omega
+
+theorem prepare_fsFree (src : Str) (h : ∀ c ∈ src, fsFree c) : ∀ c ∈ prepare src, fsFree c := by
+  intro c hc
+  have h1 := trimEnds_sublist _ c hc
+  rcases mem_joinNL _ c h1 with rfl | ⟨l, hl, hcl⟩
+  · simp [fsFree]
+  · simp only [List.mem_map] at hl
+    obtain ⟨l0, hl0, rfl⟩ := hl
+    rcases mem_normGo l0 .idle [] c hcl with h2 | h2 | h2
+    · simp at h2
+    · exact h c (mem_splitNL src l0 hl0 c h2)
+    · simp only [m14, m13, List.cons_append, List.nil_append, List.mem_cons, List.not_mem_nil, or_false] at h2
+      rcases h2 with rfl | rfl | rfl | rfl | rfl | rfl | rfl | rfl | rfl | rfl | rfl | rfl | rfl | rfl <;>
+        simp [fsFree]
+
+/-- **Every text**: the stored source has as many lines as the text the hints were numbered on. -/
+theorem lineCount_stored (src c : Str) (hfs : ∀ x ∈ src, fsFree x)
+    (hc : centrifugate (prepare src) = .ok c) : lineCount (removeHints c) = lineCount c := by
+  rcases centrifugate_structure _ c hc with rfl | ⟨ls, hne, rfl, hgood, hfirst, hlast, hmem⟩
+  · rfl
+  · apply lineCount_removeHints ls hne hgood hfirst hlast
+    intro p hp x hx hxs
+    exact fsFree_py x (prepare_fsFree src hfs x (mem_splitNL _ p.1 (hmem p hp) x hx)) hxs
+
 end Paroxy.Hints
